@@ -12,8 +12,9 @@ keychain (norm := normDocker)
   pa <auth> <host hex>                   -> ok <user hex> <secret hex> | err      (ParseAuth)
   uh <url hex>                           -> host=<hex> | err                      (url.Parse(..).Host)
   norm <image hex>                       -> key=<hex|!>
-  mc <r1>;<r2>;...                       -> ok <u> <s> calls=<n> | err calls=<n>  (multiCredsFuncs)
+  mc <r1>;<r2>;...                       -> ok <u> <s> | err                      (multiCredsFuncs)
      r = e | <user hex>:<secret hex>
+  rh <0|1 per mirror, or ->               -> <h<j>|-> per returned host, comma separated (RegistryHostsFromConfig)
   <auth> = nil | u=<hex>,p=<hex>,a=<hex>,s=<hex>,i=<hex>,r=<hex>
 
 fetcher
@@ -173,7 +174,11 @@ def step (s : St) : List String → St × String
     match (if rs = "-" then some [] else (rs.splitOn ";").mapM parseMcRes?) with
     | some rs =>
       let fs : List (String → Ref → Res) := rs.map fun r => fun _ _ => r
-      (s, s!"{showRes (multiCreds fs "" "")} calls={consulted rs}")
+      (s, showRes (multiCreds fs "" ""))
+    | none => (s, "bad-op")
+  | ["rh", mirrors] =>
+    match (if mirrors = "-" then some [] else (mirrors.toList.mapM fun c => parseBool? (String.ofList [c]))) with
+    | some ms => (s, ",".intercalate ((hostHeaders ms).map showCarries))
     | none => (s, "bad-op")
   | ["f.new", az, force, hosts, script] =>
     match parseAuthz? az, parseBool? force, (hosts.splitOn ",").mapM parseHostCfg?, parseScript? script with
